@@ -6,7 +6,7 @@ name=$1; shift
 wt=/tmp/runall-$name-$$
 git -C /repo worktree add -q --detach $wt HEAD || exit 2
 trap 'git -C /repo worktree remove --force '$wt' >/dev/null 2>&1; rm -rf '$wt EXIT
-for p in "$@"; do git -C $wt apply "$p" || { echo "PATCH DOES NOT APPLY: $p"; exit 2; }; done
+for p in "$@"; do p=$(realpath "$p"); git -C $wt apply "$p" || { echo "PATCH DOES NOT APPLY: $p"; exit 2; }; done
 ( cd $wt && GOFLAGS=-mod=mod GOPROXY=off GOSUMDB=off GOTOOLCHAIN=local go build ./... ) || { echo "DOES NOT BUILD"; exit 2; }
 for c in ${CHECKS:-C01 C02 C03 C04 C05 C06 C07 C08 C09 C10 C11 C12 C13 C14 C15 C16 C17 C18 C19 C20}; do
   out=$(VERIF_REPO=$wt python3 run.py $c --tier quick --noevidence 2>&1); rc=$?
